@@ -8,7 +8,7 @@ code points, lone surrogates and out-of-range values included) and for **every**
 well-formedness predicates `TblOK` / `XmlOK`; `tblOK_live` / `xmlOK_live` discharge these for the tables generated
 from the working tree by kernel evaluation, so one changed entry breaks a named obligation.
 
-Readers: `readText T 0` = html.parser (convert_charrefs=False) + bs4's handle_entityref/handle_charref on tag-free
+Readers: `readText T late 0` = html.parser (convert_charrefs=False) + bs4's handle_entityref/handle_charref on tag-free
 text; `readAttr T` = quote stripping + `html.unescape`. Both are validated against the real parser by the check. -/
 namespace BS.Props.C09
 open BS.Entities BS.Reader
@@ -61,12 +61,12 @@ theorem xml_amp_only_as_reference (X : List (Nat × PStr)) (T : Tbl) (h : XmlOK 
   toks_amp (toks_gen T xmlParticles (xmlRep X) (repOK_xml h) xml_covers.1 s) pre post hs
 
 /-- Reading the output of `substitute_xml` back as element text yields the original string. -/
-theorem xml_text_roundtrip (X : List (Nat × PStr)) (T : Tbl) (h : XmlOK X T = true) (s : PStr) :
-    readText T 0 (substXml X s) = s :=
-  html_text_roundtrip_gen T xmlParticles (xmlRep X) (repOK_xml h) xml_covers.1 s
+theorem xml_text_roundtrip (X : List (Nat × PStr)) (T : Tbl) (h : XmlOK X T = true) (late : Bool) (s : PStr) :
+    readText T late 0 (substXml X s) = s :=
+  html_text_roundtrip_gen T late xmlParticles (xmlRep X) (repOK_xml h) xml_covers.1 s
 
-example : readText BS.Gen.htmlTable 0 (substXml BS.Gen.xmlTable (ofS "&lt;<&#60;")) = ofS "&lt;<&#60;" :=
-  xml_text_roundtrip _ _ xmlOK_live _
+example : readText BS.Gen.htmlTable false 0 (substXml BS.Gen.xmlTable (ofS "&lt;<&#60;")) = ofS "&lt;<&#60;" :=
+  xml_text_roundtrip _ _ xmlOK_live _ _
 
 /-! ## substitute_html ('html') -/
 
@@ -86,13 +86,13 @@ theorem html_amp_only_as_reference (T : Tbl) (h : TblOK T = true) (s pre post : 
 
 /-- Reading the output of `substitute_html` back as element text yields the original string — multi-code-point
     entities, look-alike references (`&lt;` in the input) and all. -/
-theorem html_text_roundtrip (T : Tbl) (h : TblOK T = true) (s : PStr) :
-    readText T 0 (substHtml T s) = s :=
+theorem html_text_roundtrip (T : Tbl) (h : TblOK T = true) (late : Bool) (s : PStr) :
+    readText T late 0 (substHtml T s) = s :=
   let ⟨h1, _, _, _, h38⟩ := tblOK_amp h
-  html_text_roundtrip_gen T T.particlesAmp (htmlRep T) h1 h38 s
+  html_text_roundtrip_gen T late T.particlesAmp (htmlRep T) h1 h38 s
 
-example : readText BS.Gen.htmlTable 0 (substHtml BS.Gen.htmlTable [8807, 824, 38, 108, 116, 59, 8807]) =
-    [8807, 824, 38, 108, 116, 59, 8807] := html_text_roundtrip _ tblOK_live _
+example : readText BS.Gen.htmlTable false 0 (substHtml BS.Gen.htmlTable [8807, 824, 38, 108, 116, 59, 8807]) =
+    [8807, 824, 38, 108, 116, 59, 8807] := html_text_roundtrip _ tblOK_live _ _
 
 /-! ## quoted_attribute_value -/
 
@@ -164,10 +164,10 @@ example : substHtmlWith BS.Gen.htmlTable BS.Gen.htmlTable.particlesAmp.reverse [
 /-- `Formatter.substitute` / `attribute_value` of a registered formatter whose function is `substitute_xml` (code 1) or
     `substitute_html` (code 2), outside `cdata_containing_tags`: the text read back is the original. -/
 theorem formatter_text_roundtrip (X : List (Nat × PStr)) (T : Tbl) (hx : XmlOK X T = true) (h : TblOK T = true)
-    (e : RegEntry) (he : e.fn = 1 ∨ e.fn = 2) (s : PStr) :
-    readText T 0 (formatterSubstitute T X e none s) = s := by
+    (e : RegEntry) (he : e.fn = 1 ∨ e.fn = 2) (late : Bool) (s : PStr) :
+    readText T late 0 (formatterSubstitute T X e none s) = s := by
   rcases he with he | he <;> simp only [formatterSubstitute, he, applyFn] <;> simp
-  · exact xml_text_roundtrip X T hx s
-  · exact html_text_roundtrip T h s
+  · exact xml_text_roundtrip X T hx late s
+  · exact html_text_roundtrip T h late s
 
 end BS.Props.C09
